@@ -1,5 +1,13 @@
 import Indi.Properties.C03
+import Indi.Properties.Wire
 #print axioms Indi.C03_roundtrip
 #print axioms Indi.C03_fixed_point
 #print axioms Indi.C03_fixed_point_counterexample
 #print axioms Indi.C03_parsed_valid
+#print axioms Indi.Xml.run_serElem
+#print axioms Indi.Xml.parseDoc_serElem
+#print axioms Indi.Xml.parseDoc_wrapped
+#print axioms Indi.Xml.fromString_toString
+#print axioms Indi.Xml.wireSafe_canon
+#print axioms Indi.Xml.toString_fixed_point
+#print axioms Indi.Xml.generated_prefix_ok
